@@ -209,7 +209,9 @@ def summarize(ctx, items, results):
            "explanation": "Per arm list: (1) z3 decides whether some value of the scrutinee type (all bit patterns that encode a value) matches no arm; the real checker's verdict must agree "
                           "(accepted <=> unsat). (2) accepted lists are compiled and the circuit must return, for ALL scrutinee values, the result of the first arm whose pattern matches, with its bindings "
                           "(arm i returns i+1 xor the bound scalars). (3) for rejected lists every reported missing case is parsed back and must match at least one value (sat) and no value that an arm matches (unsat).",
-           **tot, "rejected_for_other_reasons": len(other), "solver": st.as_dict(),
+           "arm_lists": tot["arm_lists"], "exhaustive_lists": tot["exhaustive"], "non_exhaustive_lists": tot["non_exhaustive"],
+           "compiled": tot["compiled"], "witnesses_checked": tot["witnesses"],
+           "rejected_for_other_reasons": len(other), "solver": st.as_dict(),
            "bounds": "scrutinee types: bool, u8/i8/u16/i16/u32/i32 (thorough: u64/i64/usize), enums with unit/payload variants, tuples, structs with `..`, nesting <= 2; <= 8 arms; arm lists built as exact covers and perturbed at their boundaries",
            "functions_encoded": ["check.rs check_exhaustiveness/usefulness/specialize/split_* (verdict and witnesses, run natively)", "compile.rs Match lowering + TypedPattern::compile (circuit encoded)"]}
     return {"violations": viol, "errors": errors, "inconclusive": st.unknown, "inconclusive_limit": max(2, st.queries // 50), "coverage": cov,
